@@ -3,7 +3,8 @@ import glob, json, os, re, subprocess, sys, time, hashlib
 import gen as G
 
 VERIF = G.VERIF
-DEPS = os.path.join(VERIF, 'build', 'depsrc', 'target', 'debug', 'deps')
+BUILD = os.path.join(VERIF, 'build') if os.path.isdir(os.path.join(VERIF, 'build', 'depsrc')) else '/verif/build'   # snapshots (vp run) reuse /verif's build cache
+DEPS = os.path.join(BUILD, 'depsrc', 'target', 'debug', 'deps')
 EXTERN_CRATES = ['http', 'url', 'encoding_rs', 'encoding_rs_io', 'mime', 'mime_guess', 'flate2', 'base64', 'rand',
                  'serde', 'serde_json', 'serde_urlencoded', 'log']
 
@@ -41,10 +42,10 @@ def externs():
 
 
 def ensure_deps():
-    stamp = os.path.join(VERIF, 'build', 'deps.stamp')
+    stamp = os.path.join(BUILD, 'deps.stamp')
     cur = subprocess.run('sha256sum /repo/Cargo.lock /repo/Cargo.toml', shell=True, capture_output=True, text=True).stdout
     if not os.path.exists(stamp) or open(stamp).read() != cur or not glob.glob(os.path.join(DEPS, 'libhttp-*.rlib')):
-        r = subprocess.run([os.path.join(VERIF, 'vp', 'setup.sh')], capture_output=True, text=True)
+        r = subprocess.run([os.path.join('/verif' if BUILD == '/verif/build' else VERIF, 'vp', 'setup.sh')], capture_output=True, text=True)
         if r.returncode != 0:
             raise G.GenError('dependency build failed: ' + r.stdout[-400:] + r.stderr[-400:])
 
